@@ -103,10 +103,19 @@ func (a *Allocation) AddPermission(perms *Permission) {
 	}
 
 	perms.allocation = a
+	a.permissionsLock.Lock()
+	// A request that was still in flight when the allocation was closed must not leave a
+	// permission (and its timer) behind on the dead allocation. Close() marks the
+	// allocation closed before it collects the permissions, so checking under the lock
+	// means every permission stored here is seen and removed by Close().
+	if a.isClosed() {
+		a.permissionsLock.Unlock()
+
+		return
+	}
 	// Arm the timer before the permission becomes visible: Close() stops the timer of
 	// every permission it finds, also while the created callback below is still running.
 	perms.start(perms.timeout)
-	a.permissionsLock.Lock()
 	a.permissions[fingerprint] = perms
 	a.permissionsLock.Unlock()
 
@@ -175,6 +184,11 @@ func (a *Allocation) AddChannelBind(chanBind *ChannelBind, channelLifetime, perm
 	if channelByNumber == nil {
 		a.channelBindingsLock.Lock()
 		defer a.channelBindingsLock.Unlock()
+
+		// See AddPermission: nothing is added to an allocation that has been closed.
+		if a.isClosed() {
+			return errAllocationClosed
+		}
 
 		chanBind.allocation = a
 		a.channelBindings = append(a.channelBindings, chanBind)
@@ -311,6 +325,15 @@ func (a *Allocation) RemoveTCPConnection(m *Manager, connectionID proto.Connecti
 	defer m.lock.Unlock()
 
 	a.removeTCPConnection(connectionID)
+}
+
+func (a *Allocation) isClosed() bool {
+	select {
+	case <-a.closed:
+		return true
+	default:
+		return false
+	}
 }
 
 // Close closes the allocation.
